@@ -751,3 +751,138 @@ Proof.
   exists r, r'. split; [exact I1|]. split; [exact I2|]. exists F0. intros F HF0. destruct (HF F HF0) as (ls' & p' & E' & Hiso).
   exists ls', p'. split; [exact E'|]. rewrite <- Hg. exact Hiso.
 Qed.
+
+(* ================= REAL RECORDED INPUTS (audit finding G1; see the section of the same name in Props/C02.v) =================
+   The lazy interpreter receives the blocks of the MERGED query, whose matches carry FILE capture indices, and reads only the file index of a capture expression
+   (lazy_reindex, Props/C02.v: the lazy run of a file and of `normalize_file fl` — every stanza index replaced by the file index, Model/IdxBridge.v — coincide on
+   every input).  The fragment predicates `pm_ok`, `pm_ok2`, `pm_ok3` contain the equation `nodes_for_capture m stanza_idx = nodes_for_capture m file_idx`, false of a
+   merged-query match of a real multi-stanza file; stated on `normalize_file fl` the equation is trivially true and the rest of the fragment is unchanged.  The whole-run
+   theorems for the runs of the ORIGINAL file on the merged-query blocks as recorded: *)
+From TSG Require Import Model.IdxBridge Proofs.IdxLazy Proofs.IdxBridge Proofs.IdxReal Proofs.IdxRealExample.
+
+Theorem lazy_block_order_iso_real_partial : forall (rx : Type) (t : tree) (fl : file) (supplied : globals) (regexes : list rx)
+    (find : rx -> str -> option (list (option (N * N)))) (call : ident -> graph -> list value -> res (value * graph)) (okfn : ident -> Prop),
+  (forall f, okfn f -> call_ok call f) ->
+  forall g0 : graph, gclosed (N.of_nat (length g0)) g0 ->
+  (forall glob, check_globals (f_globals fl) (globals_nested supplied) = Ok glob ->
+     forall name v, globals_get glob name = Some v -> vall (fun i => i < N.of_nat (length g0)) v) ->
+  forall (fuel : nat) (ms ms' : list (N * qmatch)) (ls : lstate) (p : polls),
+  Permutation ms ms' -> Forall (pm_ok (normalize_file fl) okfn) ms ->
+  run_lazy t fl config0 supplied None regexes find call fuel ms g0 = Ok (ls, p) ->
+  exists r r', (forall i, r' (r i) = i) /\ (forall i, r (r' i) = i) /\ (forall i, i < N.of_nat (length g0) -> r i = i) /\
+    exists fuel0, forall fuel', (fuel0 <= fuel')%nat -> exists ls' p',
+      run_lazy t fl config0 supplied None regexes find call fuel' ms' g0 = Ok (ls', p') /\ graph_iso r (l_graph ls) (l_graph ls').
+Proof. exact @lazy_block_order_iso_real_lemma. Qed.
+Theorem lazy_block_order_fail_real_partial : forall (rx : Type) (t : tree) (fl : file) (supplied : globals) (regexes : list rx)
+    (find : rx -> str -> option (list (option (N * N)))) (call : ident -> graph -> list value -> res (value * graph)) (okfn : ident -> Prop),
+  (forall f, okfn f -> call_ok call f) ->
+  forall g0 : graph, gclosed (N.of_nat (length g0)) g0 ->
+  (forall glob, check_globals (f_globals fl) (globals_nested supplied) = Ok glob ->
+     forall name v, globals_get glob name = Some v -> vall (fun i => i < N.of_nat (length g0)) v) ->
+  forall (fuel : nat) (ms ms' : list (N * qmatch)),
+  Permutation ms ms' -> Forall (pm_ok (normalize_file fl) okfn) ms ->
+  (forall r, run_lazy t fl config0 supplied None regexes find call fuel ms g0 <> Ok r) ->
+  run_lazy t fl config0 supplied None regexes find call fuel ms g0 <> OutOfFuel ->
+  forall fuel' r, run_lazy t fl config0 supplied None regexes find call fuel' ms' g0 <> Ok r.
+Proof. exact @lazy_block_order_fail_real_lemma. Qed.
+Theorem lazy_block_order_iso_scoped_real_partial : forall (rx : Type) (t : tree) (fl : file) (supplied : globals) (regexes : list rx)
+    (find : rx -> str -> option (list (option (N * N)))) (call : ident -> graph -> list value -> res (value * graph)) (okfn : ident -> Prop),
+  (forall f, okfn f -> call_ok call f) ->
+  forall g0 : graph, gclosed (N.of_nat (length g0)) g0 ->
+  (forall glob, check_globals (f_globals fl) (globals_nested supplied) = Ok glob ->
+     forall name v, globals_get glob name = Some v -> vall (fun i => i < N.of_nat (length g0)) v) ->
+  forall (fuel : nat) (ms ms' : list (N * qmatch)) (ls : lstate) (p : polls),
+  Permutation ms ms' -> Forall (pm_ok2 (normalize_file fl) okfn) ms ->
+  run_lazy t fl config0 supplied None regexes find call fuel ms g0 = Ok (ls, p) ->
+  exists r r', (forall i, r' (r i) = i) /\ (forall i, r (r' i) = i) /\ (forall i, i < N.of_nat (length g0) -> r i = i) /\
+    exists fuel0, forall fuel', (fuel0 <= fuel')%nat -> exists ls' p',
+      run_lazy t fl config0 supplied None regexes find call fuel' ms' g0 = Ok (ls', p') /\ graph_iso r (l_graph ls) (l_graph ls').
+Proof. exact @lazy_block_order_iso_scoped_real_lemma. Qed.
+Theorem lazy_block_order_fail_scoped_real_partial : forall (rx : Type) (t : tree) (fl : file) (supplied : globals) (regexes : list rx)
+    (find : rx -> str -> option (list (option (N * N)))) (call : ident -> graph -> list value -> res (value * graph)) (okfn : ident -> Prop),
+  (forall f, okfn f -> call_ok call f) ->
+  forall g0 : graph, gclosed (N.of_nat (length g0)) g0 ->
+  (forall glob, check_globals (f_globals fl) (globals_nested supplied) = Ok glob ->
+     forall name v, globals_get glob name = Some v -> vall (fun i => i < N.of_nat (length g0)) v) ->
+  forall (fuel : nat) (ms ms' : list (N * qmatch)),
+  Permutation ms ms' -> Forall (pm_ok2 (normalize_file fl) okfn) ms ->
+  (forall r, run_lazy t fl config0 supplied None regexes find call fuel ms g0 <> Ok r) ->
+  run_lazy t fl config0 supplied None regexes find call fuel ms g0 <> OutOfFuel ->
+  forall fuel' r, run_lazy t fl config0 supplied None regexes find call fuel' ms' g0 <> Ok r.
+Proof. exact @lazy_block_order_fail_scoped_real_lemma. Qed.
+Theorem lazy_block_order_iso_scoped_thunks_real_partial : forall (rx : Type) (t : tree) (fl : file) (supplied : globals) (regexes : list rx)
+    (find : rx -> str -> option (list (option (N * N)))) (call : ident -> graph -> list value -> res (value * graph)) (okfn : ident -> Prop),
+  (forall f, okfn f -> call_ok call f) ->
+  forall g0 : graph, gclosed (N.of_nat (length g0)) g0 ->
+  (forall glob, check_globals (f_globals fl) (globals_nested supplied) = Ok glob ->
+     forall name v, globals_get glob name = Some v -> vall (fun i => i < N.of_nat (length g0)) v) ->
+  forall (tnt : ident -> bool) (fuel : nat) (ms ms' : list (N * qmatch)) (ls : lstate) (p : polls),
+  Permutation ms ms' -> Forall (pm_ok3 (normalize_file fl) okfn tnt) ms ->
+  run_lazy t fl config0 supplied None regexes find call fuel ms g0 = Ok (ls, p) ->
+  exists r r', (forall i, r' (r i) = i) /\ (forall i, r (r' i) = i) /\ (forall i, i < N.of_nat (length g0) -> r i = i) /\
+    exists fuel0, forall fuel', (fuel0 <= fuel')%nat -> exists ls' p',
+      run_lazy t fl config0 supplied None regexes find call fuel' ms' g0 = Ok (ls', p') /\ graph_iso r (l_graph ls) (l_graph ls').
+Proof. exact @lazy_block_order_iso_scoped_thunks_real_lemma. Qed.
+Theorem lazy_block_order_fail_scoped_thunks_real_partial : forall (rx : Type) (t : tree) (fl : file) (supplied : globals) (regexes : list rx)
+    (find : rx -> str -> option (list (option (N * N)))) (call : ident -> graph -> list value -> res (value * graph)) (okfn : ident -> Prop),
+  (forall f, okfn f -> call_ok call f) ->
+  forall g0 : graph, gclosed (N.of_nat (length g0)) g0 ->
+  (forall glob, check_globals (f_globals fl) (globals_nested supplied) = Ok glob ->
+     forall name v, globals_get glob name = Some v -> vall (fun i => i < N.of_nat (length g0)) v) ->
+  forall (tnt : ident -> bool) (fuel : nat) (ms ms' : list (N * qmatch)),
+  Permutation ms ms' -> Forall (pm_ok3 (normalize_file fl) okfn tnt) ms ->
+  (forall r, run_lazy t fl config0 supplied None regexes find call fuel ms g0 <> Ok r) ->
+  run_lazy t fl config0 supplied None regexes find call fuel ms g0 <> OutOfFuel ->
+  forall fuel' r, run_lazy t fl config0 supplied None regexes find call fuel' ms' g0 <> Ok r.
+Proof. exact @lazy_block_order_fail_scoped_thunks_real_lemma. Qed.
+
+(* NON-VACUITY ON A REAL RECORDED CASE WITH SCOPED VARIABLES, READER BEFORE DEFINER (Proofs/IdxRealExample.v r4 = C04 stream cases_11.v case_1627, copied verbatim):
+     (module) @m { node @m.scope  attr (@m.scope) kind = "module" }   (.. @stmts* .. @d ..) { node r  attr (r) k = @d.k  print @stmts }   (..) @again { let @again.k = 99 }
+   The audit proved `pm_ok2`/`pm_ok3` FALSE of its recorded merged-query blocks for the original file.  On the normalized file `pm_ok2` holds of them.  The recorded lazy
+   run (merged-query order: stanzas 0, 2, 1 — the definer of `k` before its reader) succeeds; the strict run (stanza order 0, 1, 2: reader first) fails with
+   UndefinedVariable.  lazy_block_order_iso_scoped_real_partial applies to the recorded run and gives, for the order with the READER'S block BEFORE the DEFINER'S
+   (`r4_strict_order`, a different list), success from some fuel on with an isomorphic graph; evaluation of the model at the default fuel agrees. *)
+Example c08_real_case_reader_before_definer :
+  run_idx_agreeb r4_run = true /\
+  Forall (pm_ok2 (normalize_file (ri_file r4_run)) nofn) (ri_lmatches r4_run) /\
+  Permutation (ri_lmatches r4_run) r4_strict_order /\ ri_lmatches r4_run <> r4_strict_order /\
+  map fst (ri_lmatches r4_run) = [0; 2; 1] /\ map fst r4_strict_order = [0; 1; 2] /\
+  (exists e, run_one r4_tree config0 None (with_lazy r4_run false) [] = Err e /\ root_cause e = EUndefinedVariable) /\
+  (exists ls p,
+     run_lazy r4_tree (ri_file r4_run) config0 (ri_supplied r4_run) None (ri_rxs r4_run) Regex.rx_captures r4_call default_fuel (ri_lmatches r4_run) [] = Ok (ls, p) /\
+     exists r r', (forall i, r' (r i) = i) /\ (forall i, r (r' i) = i) /\
+       exists fuel0, forall fuel', (fuel0 <= fuel')%nat -> exists ls' p',
+         run_lazy r4_tree (ri_file r4_run) config0 (ri_supplied r4_run) None (ri_rxs r4_run) Regex.rx_captures r4_call fuel' r4_strict_order [] = Ok (ls', p') /\
+         graph_iso r (l_graph ls) (l_graph ls')) /\
+  (exists ls p,
+     run_lazy r4_tree (ri_file r4_run) config0 (ri_supplied r4_run) None (ri_rxs r4_run) Regex.rx_captures r4_call default_fuel r4_strict_order [] = Ok (ls, p) /\
+     length (l_graph ls) = 2%nat).
+Proof.
+  split; [exact r4_idx_b|]. split; [exact r4_blocks_ok|]. destruct r4_orders as (H1 & H2 & H3 & H4).
+  split; [exact H1|]. split; [exact H2|]. split; [exact H3|]. split; [exact H4|]. split; [exact r4_strict_fails|]. split; [exact r4_theorem_applies|exact r4_reader_first_ok].
+Qed.
+
+(* the locality clause derived from the checker, on the normalized file: `file_eok` (Model/Locality.v) does not look at capture indices
+   (Proofs/IdxChecked.v file_eok_norm), so acceptance of fl by the checker gives the clause for `normalize_file fl` *)
+From TSG Require Import Proofs.IdxChecked.
+Theorem checked_blocks_in_fragment_real : forall q f fl okfn ms,
+  check_file q f = CkOk fl -> Forall (pm_ok2_ns (normalize_file fl) okfn) ms -> Forall (pm_ok2 (normalize_file fl) okfn) ms.
+Proof. exact checked_pm_ok2_real. Qed.
+Theorem lazy_block_order_iso_scoped_checked_real_partial : forall (rx : Type) (t : tree) q f (fl : file) (supplied : globals) (regexes : list rx)
+    (find : rx -> str -> option (list (option (N * N)))) (call : ident -> graph -> list value -> res (value * graph)) (okfn : ident -> Prop),
+  check_file q f = CkOk fl ->
+  (forall f, okfn f -> call_ok call f) ->
+  forall g0 : graph, gclosed (N.of_nat (length g0)) g0 ->
+  (forall glob, check_globals (f_globals fl) (globals_nested supplied) = Ok glob ->
+     forall name v, globals_get glob name = Some v -> vall (fun i => i < N.of_nat (length g0)) v) ->
+  forall (fuel : nat) (ms ms' : list (N * qmatch)) (ls : lstate) (p : polls),
+  Permutation ms ms' -> Forall (pm_ok2_ns (normalize_file fl) okfn) ms ->
+  run_lazy t fl config0 supplied None regexes find call fuel ms g0 = Ok (ls, p) ->
+  exists r r', (forall i, r' (r i) = i) /\ (forall i, r (r' i) = i) /\ (forall i, i < N.of_nat (length g0) -> r i = i) /\
+    exists fuel0, forall fuel', (fuel0 <= fuel')%nat -> exists ls' p',
+      run_lazy t fl config0 supplied None regexes find call fuel' ms' g0 = Ok (ls', p') /\ graph_iso r (l_graph ls) (l_graph ls').
+Proof.
+  intros rx t q f fl supplied regexes find call okfn Hck Hcall g0 Hcl Hglob fuel ms ms' ls p HP Hok Hrun.
+  exact (lazy_block_order_iso_scoped_real_partial rx t fl supplied regexes find call okfn Hcall g0 Hcl Hglob fuel ms ms' ls p HP
+           (checked_pm_ok2_real q f fl okfn ms Hck Hok) Hrun).
+Qed.
